@@ -198,8 +198,8 @@ Fixpoint conts_from (cl : call) (pos j : nat) (ins : list citem) : list (nat * f
   match ins with
   | [] => []
   | IBadToken :: rest => (j, refused (http_resp 400 false [[FExc]])) :: conts_from cl pos (S j) rest
-  | ISticky :: rest => (j, handled true http_xerr false pos) :: conts_from cl pos (S j) rest
-  | ICancel :: _ => [(j, handled false (http_resp 200 false [[]]) false pos)]
+  | ISticky :: rest => (j, early true http_xerr) :: conts_from cl pos (S j) rest
+  | ICancel :: _ => [(j, early false (http_resp 200 false [[]]))]
   | ITick :: rest =>
       let f := cont_turn cl pos in
       (j, f) :: if f_tok f then conts_from cl (f_pos f) (S j) rest else []
@@ -212,7 +212,8 @@ Definition conts_of (k : nat) (cl : call) : list (nat * fate) :=
 (* ---- histories: the dispatch layer without the hook ------------------------ *)
 Inductive op := Begin (k : nat) | Finish (k : nat).
 Inductive part := PtNone | PtWhole (err : bool) | PtBegin | PtEnd (err : bool).
-Record srq := { s_k : nat; s_item : option nat; s_part : part; s_resp : option resp }.
+(* s_user: user code (handler / Produce / Exchange) runs inside this request *)
+Record srq := { s_k : nat; s_item : option nat; s_part : part; s_user : bool; s_resp : option resp }.
 
 Record sstate := { ss_run : list nat; ss_done : list nat }.
 Definition mem_nat (n : nat) (l : list nat) : bool := existsb (Nat.eqb n) l.
@@ -221,7 +222,8 @@ Fixpoint rm (n : nat) (l : list nat) : list nat :=
 
 Definition whole_part (f : fate) : part := if f_disp f then PtWhole (f_err f) else PtNone.
 Definition cont_srqs (k : nat) (cl : call) : list srq :=
-  map (fun jf => {| s_k := k; s_item := Some (fst jf); s_part := whole_part (snd jf); s_resp := Some (f_resp (snd jf)) |})
+  map (fun jf => {| s_k := k; s_item := Some (fst jf); s_part := whole_part (snd jf);
+                     s_user := f_disp (snd jf) && f_gate (snd jf); s_resp := Some (f_resp (snd jf)) |})
       (conts_of k cl).
 
 Definition sstep (calls : list call) (st : sstate) (o : op) : sstate * list srq :=
@@ -234,10 +236,11 @@ Definition sstep (calls : list call) (st : sstate) (o : op) : sstate * list srq 
             let f := first_fate k cl in
             if f_disp f && f_gate f then
               ({| ss_run := k :: ss_run st; ss_done := ss_done st |},
-               [{| s_k := k; s_item := None; s_part := PtBegin; s_resp := None |}])
+               [{| s_k := k; s_item := None; s_part := PtBegin; s_user := false; s_resp := None |}])
             else
               ({| ss_run := ss_run st; ss_done := k :: ss_done st |},
-               {| s_k := k; s_item := None; s_part := whole_part f; s_resp := Some (f_resp f) |} :: cont_srqs k cl)
+               {| s_k := k; s_item := None; s_part := whole_part f; s_user := f_disp f && f_gate f; s_resp := Some (f_resp f) |}
+               :: cont_srqs k cl)
       | None => (st, [])
       end
   | Finish k =>
@@ -246,7 +249,7 @@ Definition sstep (calls : list call) (st : sstate) (o : op) : sstate * list srq 
           if mem_nat k (ss_run st) then
             let f := first_fate k cl in
             ({| ss_run := rm k (ss_run st); ss_done := k :: ss_done st |},
-             {| s_k := k; s_item := None; s_part := PtEnd (f_err f); s_resp := Some (f_resp f) |} :: cont_srqs k cl)
+             {| s_k := k; s_item := None; s_part := PtEnd (f_err f); s_user := true; s_resp := Some (f_resp f) |} :: cont_srqs k cl)
           else (st, [])
       | None => (st, [])
       end
@@ -260,28 +263,50 @@ Fixpoint skel (calls : list call) (st : sstate) (sched : list op) : sstate * lis
 Definition sinit : sstate := {| ss_run := []; ss_done := [] |}.
 
 (* ---- the hook call sites ---------------------------------------------------- *)
-Inductive hev := HStart (id : nat) (returned : bool) | HEnd (id : nat) (err : bool).
-Record hbeh := { hb_sp : bool; hb_ep : bool }.      (* start panics / end panics *)
-Definition calm : hbeh := {| hb_sp := false; hb_ep := false |}.
+(* what OnDispatchStart hands back when it returns: (ctx, token) in every shape the
+   call sites tolerate.  Token values: 0 = nil token, S n = the token issued by
+   start n.  Context values: 0 = the caller's context (also when start returns a
+   nil context: the call site keeps its own), S n = a context derived by start n
+   carrying a value user code can read. *)
+Inductive retshape := RCtxTok | RNilCtx | RNilTok | RNilNil | RDerived.
+Definition tokv (sh : retshape) (n : nat) : nat := match sh with RNilTok | RNilNil => 0 | _ => S n end.
+Definition ctxv (sh : retshape) (n : nat) : nat := match sh with RDerived => S n | _ => 0 end.
+
+(* HStart: start id, None = panicked | Some (token value, context value) returned;
+   HEnd: token value received, err <> nil *)
+Inductive hev := HStart (id : nat) (out : option (nat * nat)) | HEnd (tv : nat) (err : bool).
+Record hbeh := { hb_sp : bool; hb_ep : bool; hb_ret : retshape }.      (* start panics / end panics / what start returns *)
+Definition calm : hbeh := {| hb_sp := false; hb_ep := false; hb_ret := RCtxTok |}.
 Definition beh (hs : list hbeh) (n : nat) : hbeh := nth n hs calm.
 
 (* OnDispatchStart inside its recover wrapper: start n returns (hookActive = true,
-   token n reaches the call site) or panics (no token, no end later) *)
-Definition start_ret (hs : list hbeh) (n : nat) : bool := negb (hb_sp (beh hs n)).
-Definition hook_start (hs : list hbeh) (n : nat) : list hev := [HStart n (start_ret hs n)].
+   its token reaches the call site WHATEVER context came with it; a non-nil
+   context replaces the call's) or panics (no token, no end later, context kept) *)
+Definition start_out (hs : list hbeh) (n : nat) : option (nat * nat) :=
+  if hb_sp (beh hs n) then None else Some (tokv (hb_ret (beh hs n)) n, ctxv (hb_ret (beh hs n)) n).
+Definition hook_start (hs : list hbeh) (n : nat) : list hev := [HStart n (start_out hs n)].
 (* OnDispatchEnd inside its recover wrapper: a panic is swallowed *)
-Definition hook_end (hs : list hbeh) (tok : nat * bool) (err : bool) : list hev :=
-  if snd tok then (if hb_ep (beh hs (fst tok)) then [HEnd (fst tok) err] else [HEnd (fst tok) err]) else [].
+Definition hook_end (hs : list hbeh) (n : nat) (out : option (nat * nat)) (err : bool) : list hev :=
+  match out with
+  | Some (tv, _) => if hb_ep (beh hs n) then [HEnd tv err] else [HEnd tv err]
+  | None => []
+  end.
+(* the context user code runs under *)
+Definition cv_of (out : option (nat * nat)) : nat := match out with Some (_, cv) => cv | None => 0 end.
 
 Inductive phase := PWhole | PBegin | PEnd.
 (* q_begin: on the resumed half of a suspended request, the start event the same
-   call produced when it was begun (id, returned) *)
-Record rq := { q_k : nat; q_item : option nat; q_phase : phase; q_begin : option (nat * bool);
-               q_evs : list hev; q_resp : option resp }.
+   call produced when it was begun (id, outcome).  q_seen: the context value every
+   piece of user code saw during the request (None: no user code ran); reported
+   on the half in which the request completes. *)
+Record rq := { q_k : nat; q_item : option nat; q_phase : phase; q_begin : option (nat * option (nat * nat));
+               q_evs : list hev; q_seen : option nat; q_resp : option resp }.
 
-(* hook counter; (start id, returned) held by each suspended request *)
-Record hstate := { h_next : nat; h_tab : list (nat * (nat * bool)) }.
-Fixpoint take_tok (k : nat) (tab : list (nat * (nat * bool))) : option ((nat * bool) * list (nat * (nat * bool))) :=
+(* hook counter; (start id, outcome) held by each suspended request: its local
+   hookToken / ctx variables *)
+Definition tabent := (nat * (nat * option (nat * nat)))%type.
+Record hstate := { h_next : nat; h_tab : list tabent }.
+Fixpoint take_tok (k : nat) (tab : list tabent) : option ((nat * option (nat * nat)) * list tabent) :=
   match tab with
   | [] => None
   | (j, t) :: r => if Nat.eqb j k then Some (t, r)
@@ -289,18 +314,22 @@ Fixpoint take_tok (k : nat) (tab : list (nat * (nat * bool))) : option ((nat * b
   end.
 
 Definition drq (hs : list hbeh) (h : hstate) (s : srq) : hstate * rq :=
-  let mk ph b evs := {| q_k := s_k s; q_item := s_item s; q_phase := ph; q_begin := b; q_evs := evs; q_resp := s_resp s |} in
+  let mk ph b evs seen := {| q_k := s_k s; q_item := s_item s; q_phase := ph; q_begin := b; q_evs := evs;
+                             q_seen := seen; q_resp := s_resp s |} in
   let n := h_next h in
+  let saw out := if s_user s then Some (cv_of out) else None in
   match s_part s with
-  | PtNone => (h, mk PWhole None [])
+  | PtNone => (h, mk PWhole None [] None)
   | PtWhole e =>
-      ({| h_next := S n; h_tab := h_tab h |}, mk PWhole None (hook_start hs n ++ hook_end hs (n, start_ret hs n) e))
+      ({| h_next := S n; h_tab := h_tab h |},
+       mk PWhole None (hook_start hs n ++ hook_end hs n (start_out hs n) e) (saw (start_out hs n)))
   | PtBegin =>
-      ({| h_next := S n; h_tab := (s_k s, (n, start_ret hs n)) :: h_tab h |}, mk PBegin None (hook_start hs n))
+      ({| h_next := S n; h_tab := (s_k s, (n, start_out hs n)) :: h_tab h |}, mk PBegin None (hook_start hs n) None)
   | PtEnd e =>
       match take_tok (s_k s) (h_tab h) with
-      | Some (tok, rest) => ({| h_next := n; h_tab := rest |}, mk PEnd (Some tok) (hook_end hs tok e))
-      | None => (h, mk PEnd None [])
+      | Some (tok, rest) => ({| h_next := n; h_tab := rest |},
+                             mk PEnd (Some tok) (hook_end hs (fst tok) (snd tok) e) (saw (snd tok)))
+      | None => (h, mk PEnd None [] None)
       end
   end.
 
@@ -341,9 +370,11 @@ Definition fr_eqb (a b : fr) : bool :=
 Definition resp_eqb (a b : resp) : bool :=
   N.eqb (r_status a) (r_status b) && Bool.eqb (r_xerr a) (r_xerr b) && Bool.eqb (r_panic a) (r_panic b)
   && list_eqb (list_eqb fr_eqb) (r_streams a) (r_streams b).
+Definition out_eqb (a b : option (nat * nat)) : bool :=
+  opt_eqb (fun x y => Nat.eqb (fst x) (fst y) && Nat.eqb (snd x) (snd y)) a b.
 Definition hev_eqb (a b : hev) : bool :=
   match a, b with
-  | HStart i r, HStart j s => Nat.eqb i j && Bool.eqb r s
+  | HStart i r, HStart j s => Nat.eqb i j && out_eqb r s
   | HEnd i e, HEnd j f => Nat.eqb i j && Bool.eqb e f
   | _, _ => false
   end.
@@ -351,8 +382,8 @@ Definition phase_eqb (a b : phase) : bool :=
   match a, b with PWhole, PWhole | PBegin, PBegin | PEnd, PEnd => true | _, _ => false end.
 Definition rq_eqb (a b : rq) : bool :=
   Nat.eqb (q_k a) (q_k b) && opt_eqb Nat.eqb (q_item a) (q_item b) && phase_eqb (q_phase a) (q_phase b)
-  && opt_eqb (fun x y => Nat.eqb (fst x) (fst y) && Bool.eqb (snd x) (snd y)) (q_begin a) (q_begin b)
-  && list_eqb hev_eqb (q_evs a) (q_evs b) && opt_eqb resp_eqb (q_resp a) (q_resp b).
+  && opt_eqb (fun x y => Nat.eqb (fst x) (fst y) && out_eqb (snd x) (snd y)) (q_begin a) (q_begin b)
+  && list_eqb hev_eqb (q_evs a) (q_evs b) && opt_eqb Nat.eqb (q_seen a) (q_seen b) && opt_eqb resp_eqb (q_resp a) (q_resp b).
 Definition obs_eqb (a b : obs) : bool :=
   list_eqb (list_eqb rq_eqb) (o_run a) (o_run b)
   && list_eqb (list_eqb (opt_eqb resp_eqb)) (o_ref a) (o_ref b).
@@ -377,28 +408,39 @@ Definition rq_dispatched (calls : list call) (q : rq) : bool :=
   | None => false
   end.
 
+(* user code ran under the context start handed back (its own when start panicked
+   or returned a nil context) *)
+Definition seen_ok (cv : nat) (q : rq) : bool :=
+  match q_seen q with None => true | Some v => Nat.eqb v cv end.
+
 (* the events of one request: nothing when not dispatched; when dispatched one
-   start and, iff it returned, one end carrying the start's token — for a request
+   start and, iff it returned, one end carrying EXACTLY the token value that start
+   returned (nil included), whatever context came with it — for a request
    suspended in its handler the end comes in the resumed half *)
 Definition shape_ok (calls : list call) (q : rq) : bool :=
   match q_phase q, q_begin q, q_evs q, q_resp q with
   | PWhole, None, [], Some _ => negb (rq_dispatched calls q)
-  | PWhole, None, [HStart _ false], Some _ => rq_dispatched calls q
-  | PWhole, None, [HStart i true; HEnd j _], Some _ => rq_dispatched calls q && Nat.eqb i j
+  | PWhole, None, [HStart _ None], Some _ => rq_dispatched calls q && seen_ok 0 q
+  | PWhole, None, [HStart _ (Some (tv, cv)); HEnd tv' _], Some _ => rq_dispatched calls q && Nat.eqb tv tv' && seen_ok cv q
   | PBegin, None, [HStart _ _], None => rq_dispatched calls q
-  | PEnd, Some (_, false), [], Some _ => true
+  | PEnd, Some (_, None), [], Some _ => seen_ok 0 q
   | PEnd, None, [], Some _ => true      (* no start was seen for it: already refused by the PBegin line *)
-  | PEnd, Some (i, true), [HEnd j _], Some _ => Nat.eqb i j
+  | PEnd, Some (_, Some (tv, cv)), [HEnd tv' _], Some _ => Nat.eqb tv tv' && seen_ok cv q
   | _, _, _, _ => false
   end.
 
-(* start ids are handed out in order; an end names a start that returned and has
-   not been ended; result: next id and the starts still waiting for their end *)
+(* start ids are handed out in order and a start returns its own token or nil; an
+   end names a token value some returned start still waits to be ended with;
+   result: next id and the token values still waiting for their end *)
+Definition tok_ok (id : nat) (out : option (nat * nat)) : bool :=
+  match out with Some (tv, _) => Nat.eqb tv 0 || Nat.eqb tv (S id) | None => true end.
 Fixpoint bal (next : nat) (open : list nat) (evs : list hev) : option (nat * list nat) :=
   match evs with
   | [] => Some (next, open)
-  | HStart id ret :: r => if Nat.eqb id next then bal (S next) (if ret then id :: open else open) r else None
-  | HEnd id _ :: r => if mem_nat id open then bal next (rm id open) r else None
+  | HStart id out :: r =>
+      if Nat.eqb id next && tok_ok id out
+      then bal (S next) (match out with Some (tv, _) => tv :: open | None => open end) r else None
+  | HEnd tv _ :: r => if mem_nat tv open then bal next (rm tv open) r else None
   end.
 
 (* the end hook saw an error exactly when the response of that request reports one *)
@@ -413,11 +455,13 @@ Definition flat_evs (segs : list (list rq)) : list hev := flat_map q_evs (concat
 (* counting events per token (used by the readable theorems) *)
 Definition cnt (p : hev -> bool) (l : list hev) : nat := length (filter p l).
 Definition is_start_of (t : nat) (e : hev) : bool := match e with HStart i _ => Nat.eqb t i | _ => false end.
-Definition is_sret_of (t : nat) (e : hev) : bool := match e with HStart i true => Nat.eqb t i | _ => false end.
+(* starts that returned token value t *)
+Definition is_sret_of (t : nat) (e : hev) : bool := match e with HStart _ (Some (tv, _)) => Nat.eqb t tv | _ => false end.
 Definition is_end_tok (t : nat) (e : hev) : bool := match e with HEnd i _ => Nat.eqb t i | _ => false end.
-(* suspended requests holding token t *)
-Definition held (t : nat) (tab : list (nat * (nat * bool))) : nat :=
-  length (filter (fun e => snd (snd e) && Nat.eqb t (fst (snd e))) tab).
+(* suspended requests holding token value t *)
+Definition holds (t : nat) (e : tabent) : bool :=
+  match snd (snd e) with Some (tv, _) => Nat.eqb t tv | None => false end.
+Definition held (t : nat) (tab : list tabent) : nat := length (filter (holds t) tab).
 Definition spec_ok (i : input) (o : obs) : bool :=
   let rqs := concat (o_run o) in
   forallb (shape_ok (i_calls i)) rqs
